@@ -424,6 +424,13 @@ class Analysis:
             return FRESH
         if isinstance(e, ast.IfExp):
             self.ev(e.test, env)
+            # arms that the type analysis found infeasible in this context contribute nothing
+            t_ok = self.branches is None or (id(e), True) in self.branches
+            f_ok = self.branches is None or (id(e), False) in self.branches
+            if t_ok and not f_ok:
+                return self.ev(e.body, env)
+            if f_ok and not t_ok:
+                return self.ev(e.orelse, env)
             return vjoin(self.ev(e.body, env), self.ev(e.orelse, env))
         if isinstance(e, (ast.Tuple, ast.List, ast.Set)):
             E = set()
